@@ -55,8 +55,22 @@ static inline size_t bl_idx(size_t i, size_t n) { bl_bounds(i < n); return i; }
 #define BL_TMIN_int INT_MIN
 #define BL_TMIN_long LONG_MIN
 #define BL_TMIN_long_long LLONG_MIN
-#define BL_SDIV(T, a, b) (bl_trap((b) != 0, "no_trap: division by zero"), bl_trap(!((a) == BL_TMIN_##T && (b) == -1), "no_trap: MIN / -1"), (a) / (b))
-#define BL_SMOD(T, a, b) (bl_trap((b) != 0, "no_trap: modulo by zero"), bl_trap(!((a) == BL_TMIN_##T && (b) == -1), "no_trap: MIN % -1"), (a) % (b))
+/* UFI: the VALUE of integer * / % is an uninterpreted function of the operands (SAT cannot relate two 64-bit
+ * multipliers or dividers in reasonable time); the no-trap obligations stay bit-precise */
+#if defined(UFI) && !defined(NATIVE)
+long __CPROVER_uninterpreted_imul(long, long); long __CPROVER_uninterpreted_idiv(long, long); long __CPROVER_uninterpreted_imod(long, long);
+#define BL_IMUL_V(T, a, b) ((T)__CPROVER_uninterpreted_imul((long)(a), (long)(b)))
+#define BL_IDIV_V(T, a, b) ((T)__CPROVER_uninterpreted_idiv((long)(a), (long)(b)))
+#define BL_IMOD_V(T, a, b) ((T)__CPROVER_uninterpreted_imod((long)(a), (long)(b)))
+#else
+#define BL_IMUL_V(T, a, b) ((a) * (b))
+#define BL_IDIV_V(T, a, b) ((a) / (b))
+#define BL_IMOD_V(T, a, b) ((a) % (b))
+#endif
+typedef long long long_long;
+#define BL_IMUL(T, a, b) BL_IMUL_V(T, a, b)
+#define BL_SDIV(T, a, b) (bl_trap((b) != 0, "no_trap: division by zero"), bl_trap(!((a) == BL_TMIN_##T && (b) == -1), "no_trap: MIN / -1"), BL_IDIV_V(T, a, b))
+#define BL_SMOD(T, a, b) (bl_trap((b) != 0, "no_trap: modulo by zero"), bl_trap(!((a) == BL_TMIN_##T && (b) == -1), "no_trap: MIN % -1"), BL_IMOD_V(T, a, b))
 #define BL_INEG(T, a) (-(a))
 
 #endif
